@@ -131,9 +131,21 @@ def run(sid, checks):
         m = json.load(open(mp)); m.setdefault('checks', {}).update(res); json.dump(m, open(mp, 'w'), indent=1)
 
 
+EXTRA = {'C07-1': ['C05', 'C06'], 'C07-2': ['C04'], 'C14-2': ['C04'], 'C18-2': ['C04'], 'C16-2': ['C06'], 'C11-1': ['C13'], 'C17-1': ['C18'], 'C01-2': ['C07'], 'C01-1': ['C02'], 'C05-1': ['C06'], 'C05-2': ['C06', 'C07'],
+         'C06-1': ['C05'], 'C06-2': ['C05'], 'C03-1': ['C14'], 'C15-2': ['C14']}
+
+
+def runall(only=None):
+    ids = sorted(d.split('/')[-2] for d in glob.glob(V + '/seeded/*/meta.json'))
+    for sid in ids:
+        if only and sid not in only: continue
+        run(sid, [sid.split('-')[0]] + EXTRA.get(sid, []))
+
+
 if __name__ == '__main__':
     if sys.argv[1] == 'confirm': confirm(sys.argv[2])
     elif sys.argv[1] == 'run': run(sys.argv[2], sys.argv[3:])
+    elif sys.argv[1] == 'runall': runall(sys.argv[2:] or None)
     elif sys.argv[1] == 'table':
         for d in sorted(glob.glob(V + '/seeded/*/meta.json')):
             m = json.load(open(d)); print(m['id'], 'kept' if m.get('kept') else 'NOT kept', {c: (r['exit'], r['violations']) for c, r in m.get('checks', {}).items()})
